@@ -541,7 +541,8 @@ def _constraint_tables(ctx, rid, repo):
                     want_rows = rows
                 want_acc = [[f"i_{n}{j}" for n in want_names for j in range(int(psets[n].attrs["n_parameters"].const_value()))] for _ in range(rows)]
                 got_acc = [[str(to_poly(x)) for x in row] for row in acc]
-                ok = seen.get("names") == want_names and got_data == want_data and got_tab == [want_tab] * want_rows and got_acc == want_acc
+                # a table kept as ONE row stands for every batch row (it broadcasts); what each row evaluates with is decided end to end (R9)
+                ok = seen.get("names") == want_names and got_data == want_data and len(got_tab) in (1, want_rows) and all(r_ == want_tab for r_ in got_tab) and got_acc == want_acc
                 if ok:
                     ctx.holds(rid, site, f"constrained names {want_names}; data indices {want_data}; {tab_attr} {want_tab} x {want_rows} row(s); parameter indices in the same order")
                 else:
@@ -567,12 +568,24 @@ def _constraint_template(ctx, rid, repo):
         if not (isinstance(recv, Obj) and recv.name in ("normal_dist", "poisson_dist")):
             raise NotHandled()
 
-        def rec(v, ps):
-            if isinstance(v, (list, tuple)):
-                return [rec(v[i], [(p_[i] if isinstance(p_, (list, tuple)) else p_) for p_ in ps]) for i in range(len(v))]
-            return fn(recv.name[:-5] + "_logpdf", to_poly(v), *[to_poly(p_) for p_ in ps])
+        def pick(p_, idx):
+            # numpy broadcasting of a distribution parameter against the value: trailing axes aligned, length-1 axes repeated
+            shp = listnp._shape(p_) if isinstance(p_, (list, tuple)) else ()
+            if len(shp) > len(idx):
+                raise Undecided("distribution parameter of higher rank than the value")
+            for d, n_ in enumerate(shp):
+                i_ = idx[len(idx) - len(shp) + d]
+                if n_ != 1 and i_ >= n_:
+                    raise FragmentFault(f"shape mismatch: parameter axis of length {n_} against value index {i_}")
+                p_ = p_[0 if n_ == 1 else i_]
+            return p_
 
-        return listnp.wrap(rec(a[0], recv.attrs["args"]))
+        def rec(v, idx):
+            if isinstance(v, (list, tuple)):
+                return [rec(v[i], idx + (i,)) for i in range(len(v))]
+            return fn(recv.name[:-5] + "_logpdf", to_poly(v), *[to_poly(pick(p_, idx)) for p_ in recv.attrs["args"]])
+
+        return listnp.wrap(rec(a[0], ()))
 
     psets = {
         "g1": Obj("g1", {"n_parameters": c(2), "pdf_type": "normal", "sigmas": [at("s0"), at("s1")], "auxdata": [at("ng0"), at("ng1")]}, closed=True),
